@@ -57,10 +57,10 @@ SubCount(p) == CASE p.k = "CP" -> Len(p.attrs) [] p.k \in {"TSi", "TSr"} -> Len(
                  [] p.k = "SA" -> IF Len(p.props) = 0 THEN 0 ELSE Len(p.props) + Len(p.props[Len(p.props)].tr) [] OTHER -> 0
 Complete(p) == CASE p.k = "CP" -> Len(p.attrs) >= 1 [] p.k \in {"TSi", "TSr"} -> Len(p.sel) >= 1
                  [] p.k = "SA" -> Len(p.props) >= 1 /\ \A i \in 1..Len(p.props) : Len(p.props[i].tr) >= 1 [] OTHER -> TRUE
-MaxSub == IF Thorough THEN 3 ELSE 2
+MaxSub == 2      \* (3 makes the thorough tier print > 6 GB of programs; the argument sweeps cover wide arguments instead)
 SubAllowed(c) ==
   LET p == Last(cont) IN
-  CASE c.fn = "Proposal" -> Len(p.props) < (IF Thorough THEN 2 ELSE 1) /\ (IF Len(p.props) = 0 THEN TRUE ELSE Len(p.props[Len(p.props)].tr) >= 1)
+  CASE c.fn = "Proposal" -> Len(p.props) < 1 /\ (IF Len(p.props) = 0 THEN TRUE ELSE Len(p.props[Len(p.props)].tr) >= 1)
     [] c.fn = "Transform" -> Len(p.props[Len(p.props)].tr) < 2
     [] OTHER -> SubCount(p) < MaxSub
 
@@ -80,8 +80,12 @@ SweepPrograms ==
   \cup { << C(f, TRUE, [x |-> 0]), C("IndividualTrafficSelector", FALSE, IF six THEN Sel6(pr, sp, ep, 43) ELSE Sel4(pr, sp, ep, 44)) >> :
             f \in {"TrafficSelectorInitiator", "TrafficSelectorResponder"}, six \in BOOLEAN, pr \in {0, 255}, sp \in {0, 65535}, ep \in {0, 1, 65535} }
 
+\* every repeatable builder called, the payload it made edited by the caller, and the builder called again with the same arguments:
+\* the second payload is what the arguments say (no object or storage shared between the payloads of two calls)
+EditPrograms == { << c, C("Edit", TRUE, [x |-> 0]), c >> : c \in { d \in TopCalls : d.rep } }
+
 Init == \/ cont = << >> /\ calls = << >> /\ failed = FALSE
-        \/ calls \in SweepPrograms /\ cont = Final(<< >>, calls) /\ failed = TRUE
+        \/ calls \in SweepPrograms \cup EditPrograms /\ cont = Final(<< >>, calls) /\ failed = TRUE
 Build(c) == /\ CallEnabled(cont, c)
             /\ cont' = ApplyCall(cont, c).cont
             /\ calls' = Append(calls, c)
